@@ -637,11 +637,13 @@ property C07: NewParagraphReader, lemma idx_least, lemma idx_is, lemma idx_none,
 property C09: lemma idxOf_prefix, lemma idxOf_found, (*Paragraph).Set, (*Paragraph).Update
 
 // the reflective decoder itself is outside the verifier (C09 and the model conformance of C10 are decided for it by the
-// bounded stand-ins): callers are verified against "it may change anything it can reach"
+// bounded stand-ins). Callers are verified against: it writes the object `data` points to (everything it hangs under
+// that object is newly allocated; a caller that passes a struct whose slices or maps are shared with something else is
+// not covered by this assumption) and it reads from the reader it is given without moving a tar reader on to another
+// member
 trusted func Unmarshal
-  // decoding reads from the reader it is given; it does not move a tar reader on to another member
   ensures is(reader, *tar.Reader) ==> as(reader, *tar.Reader).pos == old(as(reader, *tar.Reader).pos)
-  modifies *
+  modifies pointee(data)
 
 // ---------- C10: dependency fields parsed on demand ----------
 // Each accessor hands the text of its own field - the whole of it, unchanged - to the dependency parser, exactly once,
